@@ -10,7 +10,9 @@ META = {
                    "order on a runner of the book receives that runner's status and the market's settlement terms; exactly one closed-market callback is "
                    "emitted per subscribed (or empty-filter) strategy and none for others; one cleared-orders event iff the blotter is non-empty, one "
                    "cleared-market summary per client, then the close event, in that order; the market is closed afterwards, its middleware analytics "
-                   "and the strategies' runner contexts for it are released; a later non-closing update re-opens it. For a closing update of a market "
+                   "and the strategies' runner contexts for it are released; a later non-closing update re-opens it. Whole-run (closed_callbacks_whole_run): the "
+                   "closed-market callbacks observed in ANY run, in order, and the markets known at the end are a fold of a five-line specification over "
+                   "the updates alone - whatever the strategies do in their callbacks, nothing adds, drops, duplicates or reorders one. For a closing update of a market "
                    "never seen open the simulation path only logs a warning and calls nobody (known finding F12, Lean witness). The live removal rule "
                    "(closed for more than 3600 s, at close events only) is checked on the real BaseFlumine by the oracle with a patched clock."),
     "level_note": ("Trusted: Lean kernel + standard axioms; hand-written model validated by whole-simulation correspondence (events, markets, contexts "
